@@ -8,7 +8,7 @@ _RULE = ("namespaces of 1-4 generated definitions (messages and services, struct
 REG = {
     "C03": {
         "module": "Props.C03",
-        "suites": [("text", (1100, 40000))],
+        "suites": [("text", (3000, 40000))],
         "rule": _RULE + "; every case is a valid namespace, 70% carry a second rendering with other decorations and inserted lines",
         "technique": "Lean 4 theorems over an executable line/event model of the parser visitor and the builder (all documents, all line shapes) + differential correspondence with read_namespace/read_files + independent line-based reference, metamorphic renderings and canonical re-rendering",
         "level_text": "For the modelled reader (visitor call sequence of _parser.py, attribute queue/flush and directives of DataTypeBuilder/DataSchemaBuilder, finalize) it is proved in Lean 4 for all documents that an accepted definition yields exactly its field/padding statements in source order and its constant statements in source order, each once, with name, type, value, the flags and the request/response split as written, that the attached doc comments are the forward comment runs, and that a final empty line, blank/comment lines and the line-ending style change nothing (up to doc strings); the model is tied to /repo on every run by differential runs on generated definition texts.",
@@ -20,7 +20,7 @@ REG = {
     },
     "C17": {
         "module": "Props.C17",
-        "suites": [("text", (1500, 50000))],
+        "suites": [("text", (5000, 50000))],
         "rule": _RULE + "; 70% of the cases carry one injected fault, 10% two (24 categories: syntax, bad type, undefined type/identifier, bad expression, "
                         "every directive misuse, bad names, bad constants, duplicate names, union arity, extent, aggregation, deprecation) at a random "
                         "position of a random definition (target or dependency at depth 1-3), 20% none (@print delivery only)",
@@ -31,5 +31,23 @@ REG = {
                     "C17 path/line for finalize-time errors of a dependency (referrer's line) and @print in dependencies (referrer's path, possibly twice): false for the code, counterexamples decided on the model",
                     "the phase of a fault inside a statement is supplied by the generator, not derived from the text"],
         "assumptions": ["the Lean model Model/Reader.lean mirrors _parser.py/_error.py/_dsdl_definition.py/_namespace_reader.py (validated by the text correspondence on every run)"],
+    },
+    "C05": {
+        "module": "Props.C05",
+        "suites": [("rules", (6000, 120000))],
+        "rule": "a valid skeleton (message or service, structure or union, fields of every primitive/array/composite kind, constants, paddings, "
+                "dependencies sealed/deprecated/service of several sizes, vendor and standard root namespaces, fixed port-IDs, versions) with 0-3 "
+                "rule violations or boundary moves out of 38 mutators (widths 0/1/2/64/65, float 15..65, capacities -5..2, reserved names in "
+                "every letter case and pattern, duplicate names, union arity 0/1/2, void/utf8/byte placement, deprecated dependencies through "
+                "arrays, every @sealed/@extent/@union/@deprecated/--- misplacement and duplication, extent max-8..max+9, versions 0.0/255/256, "
+                "port-IDs at every range end +-1 with and without allow_unregulated, full-name length 254..257 incl. the .Response suffix); "
+                "the oracle re-evaluates the declarative rules on the mutated abstract definition",
+        "technique": "Lean 4 theorems over an executable model of the constructor / builder checks (accept = ok iff the declarative rule conjunction, per-rule kernel lemmas for all values) + differential correspondence with read_namespace on rendered definitions + independent Python rule evaluator",
+        "level_text": "For the modelled checks (type constructors, check_name, attribute constructors, aggregation checks, directive/marker handlers, composite/union/delimited/service constructors, port-ID ranges) it is proved in Lean 4 that a definition is accepted exactly when the conjunction of the named static rules of the property holds, with per-rule lemmas for all widths, capacities, names (reserved words and patterns in any letter case), versions, port-IDs, statement orders; the model is tied to /repo on every run by differential runs on generated definitions with violations at every boundary.",
+        "level_note": "Trusted: Lean kernel, standard axioms; the hand-written model of the checks is validated against the code by differential testing only; regular expressions of _name.py are transcribed by hand into list functions; names are ASCII in the model; constant values and expressions are outside this model (C04/C12); the longest-representation function used by the extent rule is the one of the model (its agreement with the real layout is C02's claim).",
+        "partial": ["'every rejection is an InvalidDefinitionError' is false for a service type used as a field type (InternalError): kept as C05.rejection_statement with a decided counterexample",
+                    "str.lower() is modelled for ASCII only: a name containing U+212A KELVIN SIGN is accepted by the code (check_name validates the lowered name) and rejected by the rule",
+                    "grammar-level rejections (width 0, cast mode on bool) are rejected in the model by the same rule predicates, the grammar itself is not modelled here"],
+        "assumptions": ["the Lean model Model/Rules.lean mirrors the constructor and builder checks (validated by the rules correspondence on every run)"],
     },
 }
